@@ -48,7 +48,12 @@ def check_flags(ctx, prog, lr):
                 v = t.expand(e.value)
                 ct = const_truth(v)
                 truthy = ct is True
-                if ct is None:
+                keeps = isinstance(v, ast.BoolOp) and isinstance(
+                    v.op, ast.Or) and any(U(x) == 'self.use_conf'
+                                          for x in v.values)
+                if keeps:
+                    truthy = True       # keeps its value or is raised
+                elif ct is None:
                     # known truthy on this path?
                     truthy = any(c.kind == 'test' and c.pol and U(
                         c.expr) == U(v) for c in p.conds[:e.nconds])
@@ -226,7 +231,11 @@ def check(ctx):
     # changes the count and with it the key
     groups = {}
     for f, store, kind, e, lock in writes:
-        groups.setdefault((store, kind), []).append((f, e, lock))
+        # two classes of writes: the attribute is rebound, or the object it
+        # holds is changed in place (entry stores, update(), pop() ...)
+        fine = kind
+        kind = 'rebind' if kind == 'rebind' else 'in-place'
+        groups.setdefault((store, kind), []).append((f, e, lock, fine))
     # discipline (a): per store exactly one rebind in the whole region, of a
     # local object, and no in-place write at all
     per_store = {}
@@ -239,7 +248,7 @@ def check(ctx):
         swap_ok = not inplace and nreb <= 1
         if swap_ok or all_locked:
             for kind, lst in items:
-                f, e, lock = lst[0]
+                f, e, lock = lst[0][:3]
                 ctx.ob('C20.PUBLISH', True, ctx.where(f.module, e.node), ENF,
                        '%s %s' % (kind, store),
                        'published by copy-then-swap' if swap_ok else
@@ -248,7 +257,7 @@ def check(ctx):
         for kind, lst in sorted(items):
             lst = sorted(lst, key=lambda x: (x[0].qual, getattr(
                 x[1].node, 'lineno', 0)))
-            f, e, lock = lst[0]
+            f, e, lock = lst[0][:3]
             ctx.ob('C20.PUBLISH', False, ctx.where(f.module, e.node), ENF,
                    '%s %s x%d' % (kind, store, len(lst)),
                    'the shared store %s is %s without a common lock and not '
@@ -256,12 +265,16 @@ def check(ctx):
                    'concurrent decision can see a half-rebuilt rule set '
                    '(in %s)' % (
                        store, {'rebind': 'rebound (%d writes during one '
-                               'reload)' % len(lst),
-                               'insert': 'filled in place entry by entry'
-                               }.get(kind, 'mutated in place (%s)' % kind),
+                               'reload)' % len(lst)}.get(
+                                   kind, 'changed in place (%d writes: entry '
+                                   'stores / update())' % len(lst)),
                        ', '.join(sorted({x[0].name for x in lst}))),
                    witness={'sites': ['%s:%s' % (x[0].name, getattr(
-                       x[1].node, 'lineno', None)) for x in lst]})
+                       x[1].node, 'lineno', None)) for x in lst],
+                       # writes that fill the store one entry at a time
+                       # (many interleaving points) among them
+                       'entrywise': sum(1 for x in lst
+                                        if x[3] == 'insert')})
     check_flags(ctx, prog, lr)
     for f, n, lock in readers:
         ctx.sample('reader %s %s:%d %s' % (f.qual, f.module.path.split(
